@@ -372,6 +372,9 @@ pub const KINDS: &[&str] = &[
     "setmetatable",
     "type-other-field",
     "version-syntax",
+    "doc-single-tag",
+    "table-extend-shared",
+    "module-extend-shared",
 ];
 
 /// One chunk of construct `kind` for file `me`; `n` makes the names it declares unique in the file.
@@ -399,14 +402,19 @@ pub fn chunk(rng: &mut Rng, g: &GenCtx, me: usize, n: usize, kind: &str) -> Chun
         "class-self-field" => format!("function {up}Cls:{lo}_init{n}()\n  self.{lo}_dyn{n} = {}\nend\n", lit(rng)),
         "class-shared" => {
             let partial = if rng.chance(1, 3) { "(partial) " } else { "" };
-            let sup = if rng.chance(1, 4) { format!(": {oup}Cls") } else { String::new() };
+            // the super class is either a class of another file, or (half of the time) a base class
+            // declared right here whose NAME carries this file's marker: a super-class relation that
+            // survives the removal of the file that stated it is then recognisable (C10)
+            let own_base = rng.bool();
+            let sup = if rng.chance(1, 3) { if own_base { format!(": {up}Base{n}") } else { format!(": {oup}Cls") } } else { String::new() };
+            let base_decl = if !sup.is_empty() && own_base { format!("---@class {up}Base{n}\n---@field {lo}_basef integer\n") } else { String::new() };
             let desc = if rng.chance(3, 4) { format!("--- {sp}Cls{sh} described by {lo} #{lo}#\n") } else { String::new() };
             let bind = match rng.below(3) {
                 0 => format!("local {lo}_sc{n} = {{}}\n"),
                 _ => String::new(),
             };
             let op = if rng.chance(1, 3) { format!("---@operator add({sp}Cls{sh}): {sp}Cls{sh}\n---@operator call(integer): string\n") } else { String::new() };
-            format!("{desc}---@class {partial}{sp}Cls{sh}{sup}\n{op}---@field {lo}_s{n} integer only in {lo}\n---@field s_common {}\n{bind}", ty(rng))
+            format!("{base_decl}{desc}---@class {partial}{sp}Cls{sh}{sup}\n{op}---@field {lo}_s{n} integer only in {lo}\n---@field s_common {}\n{bind}", ty(rng))
         }
         "class-shared-global" => format!(
             "--- {sp}Cls{sh} as a global table, from {lo} #{lo}#\n---@class {sp}Cls{sh}\n{sp}Cls{sh} = {{}}\n--- shared method from {lo} #{lo}#\nfunction {sp}Cls{sh}:{lo}_sm{n}() return {} end\n",
@@ -456,6 +464,28 @@ pub fn chunk(rng: &mut Rng, g: &GenCtx, me: usize, n: usize, kind: &str) -> Chun
         ),
         "setmetatable" => format!("local {lo}_mt{n} = setmetatable({{ {lo}_own{n} = 1 }}, {{ __index = {oup}Cls }})\nlocal {lo}_mtx{n} = {lo}_mt{n}.{olo}_a\n"),
         "type-other-field" => format!("---@class {up}Holder{n}\n---@field {lo}_ref {oup}Cls\n---@field {lo}_al {oup}Alias\n---@field {lo}_en {oup}Enum\n---@type {up}Holder{n}\nlocal {lo}_h{n}\nlocal {lo}_hx{n} = {lo}_h{n}.{lo}_ref.{olo}_a\n"),
+        "doc-single-tag" => {
+            // a declaration documented by ONE tag only (each tag has its own path into the property index)
+            let tag = rng.pick(&["---@see", "---@deprecated", "---@nodiscard", "---@async", "---@version >5.1", "---@source", "---@private", "---@readonly"]);
+            let arg = match tag {
+                "---@see" => format!(" {up}_fn"),
+                "---@source" => format!(" {lo}.lua:1"),
+                "---@deprecated" => format!(" marker #{lo}#"),
+                _ => String::new(),
+            };
+            if rng.bool() {
+                format!("{tag}{arg}\nlocal {lo}_tagged{n} = {}\n", lit(rng))
+            } else {
+                format!("{tag}{arg}\nfunction {up}_tagged{n}() end\n")
+            }
+        }
+        // several files assign the SAME field of one global table / required module with different
+        // types (which assignment types the field must not depend on hash order, C11)
+        "table-extend-shared" => format!("{oup}_T.shared_ext{sh} = {}\nlocal {lo}_rse{n} = {oup}_T.shared_ext{sh}\n", lit(rng)),
+        "module-extend-shared" => {
+            let m = g.modules[other].clone();
+            format!("local {lo}_mx{n} = require(\"{m}\")\n{lo}_mx{n}.shared_mode{sh} = {}\nlocal {lo}_rmx{n} = {lo}_mx{n}.shared_mode{sh}\n", lit(rng))
+        }
         "version-syntax" => format!("local {lo}_c{n} <const> = 1\nlocal {lo}_d{n} = 7 // 2\nlocal {lo}_b{n} = 5 & 3\n"),
         _ => format!("local {lo}_misc{n} = {}\n", lit(rng)),
     };
@@ -478,7 +508,7 @@ fn module_tail(rng: &mut Rng, g: &GenCtx, me: usize) -> Option<Chunk> {
 
 /// Order-sensitive constructs get extra weight when `order_bias` is set (C11 workloads).
 fn pick_kind(rng: &mut Rng, order_bias: bool) -> &'static str {
-    const ORDER: &[&str] = &["global-conflict", "global-read", "class-shared", "class-shared-global", "use-shared", "alias-shared", "require", "call-other", "use-class", "table-extend", "enum-use", "class-sub"];
+    const ORDER: &[&str] = &["global-conflict", "global-read", "class-shared", "class-shared-global", "use-shared", "alias-shared", "require", "call-other", "use-class", "table-extend", "enum-use", "class-sub", "table-extend-shared", "module-extend-shared", "module-extend-shared"];
     if order_bias && rng.chance(3, 5) || rng.chance(1, 3) {
         rng.pick(ORDER)
     } else {
